@@ -182,7 +182,6 @@ impl_parse! {
         "deny_unknown_fields" | "default" => {
             use syn::Token;
             if input.peek(Token![=]) {
-                input.parse::<Token![=]>()?;
                 parse_assign_str(input)?;
             }
         },
